@@ -847,6 +847,54 @@ def c17_filter_history(fi: int, form: int) -> bool:
 DETAIL["c17_filter_history"] = lambda fi, form: {"failing": filter_history_sweep(fi, form)}
 CONDITIONS.append({"fn": "c17_filter_history", "quick": 90, "thorough": 200, "sel_only": True})
 
+# ---- one parsed template whose tags meet different definitions from render to render (a macro defined by whichever partial
+# the data selects, a block overridden or not, a partial chosen by name): each render equals the render of a fresh parse ----
+_MH_P = {"theme_a": "{% macro price amount, currency: 'USD' %}{{ amount }} {{ currency }}{% endmacro %}",
+         "theme_b": "{% macro price currency: 'EUR', amount: 0 %}[{{ currency }}] {{ amount }}{% endmacro %}",
+         "theme_c": "{% macro price %}free{{ args | join: '+' }}{{ kwargs.amount }}{% endmacro %}",
+         "theme_d": "no macro here", "row": "<{{ item }}>", "cell": "({{ item.k }})"}
+_MH_SRC = ["{% include theme %}{% call price 5 %}|{% call price amount: 7 %}|{% for i in (1..2) %}{% call price i, 'X' %}{% endfor %}",
+           "{% include theme %}{% include part with v as item %}{% render part for vs as item %}",
+           "{% if theme == 'theme_a' %}{% macro price a, b: 1 %}A{{ a }}{{ b }}{% endmacro %}{% else %}{% macro price b: 2, a: 3 %}B{{ a }}{{ b }}{% endmacro %}{% endif %}{% call price 9 %}"]
+_MH_DATA = [{"theme": "theme_a", "part": "row", "v": "x", "vs": ["p", "q"]}, {"theme": "theme_b", "part": "cell", "v": {"k": 1}, "vs": [{"k": 2}]},
+            {"theme": "theme_c", "part": "row", "v": 3, "vs": []}, {"theme": "theme_d", "part": "cell", "v": None, "vs": [None]}]
+
+
+def _mh_env():
+    from liquid import CachingDictLoader, Environment
+    env = Environment(extra=True, loader=CachingDictLoader(dict(_MH_P), auto_reload=False))
+    return env
+
+
+_MH_SHARED = _mh_env()
+_MH_T = [_MH_SHARED.from_string(s) for s in _MH_SRC]
+
+
+def macro_history(k, d1, d2, d3):
+    got, want = [], []
+    for d in (d1, d2, d3):
+        got.append(_corpus.outcome(lambda: _MH_T[k].render(**_MH_DATA[d])))
+        want.append(_corpus.outcome(lambda: _mh_env().from_string(_MH_SRC[k]).render(**_MH_DATA[d])))
+    return got, want
+
+
+def c17_h2_definitions_change(k: int, d1: int, d2: int, d3: int) -> bool:
+    """
+    pre: 0 <= k <= 2 and 0 <= d1 <= 3 and 0 <= d2 <= 3 and 0 <= d3 <= 3
+    post: _
+    """
+    if excluded("c17_h2_definitions_change", locals()):
+        return True
+    from vf.hx import cint
+    k, d1, d2, d3 = cint(k, 0, 2), cint(d1, 0, 3), cint(d2, 0, 3), cint(d3, 0, 3)
+    got, want = untraced(lambda: macro_history(k, d1, d2, d3))
+    return finish(got == want)
+
+
+DETAIL["c17_h2_definitions_change"] = lambda k, d1, d2, d3: {"template": _MH_SRC[k], "data of the three renders": [_MH_DATA[d] for d in (d1, d2, d3)],
+                                                            "one template rendered three times / fresh parse each time": macro_history(k, d1, d2, d3)}
+CONDITIONS.append({"fn": "c17_h2_definitions_change", "quick": 40, "thorough": 80, "sel_only": True})
+
 ASSUMPTIONS = [
     "H1: template sources are concrete skeletons; the numbers in the data (0..9, 0..2 where a filter passes them to Decimal/json), the list length 0..3 and a string (<= 2 chars over 'ab ,') are symbolic; the data shapes are a flat list, a nested list, a dict with list/dict values and a list of dicts",
     "H1 carry: 'fresh' = the same source parsed inside the condition by a second environment with its own loader",
